@@ -58,6 +58,22 @@ META = {
         level_text="Metamorphic oracles over ~4x10^5 (quick) / ~10^7 (thorough) generated (effect, parameters, signal, partition) cases of the real effect code; exploration of an unbounded space.",
         level_note="Trusts the harness signal generators and that MockInfoBuilder info equals what effects see in the mixer for fixed parameters.",
     ),
+    "C14": dict(
+        level="exploration",
+        technique="runtime monitoring: measured sine-probe gains, DC/Nyquist gains, impulse responses and step responses of real Box<dyn Effect> instances compared with closed forms and with independent f64 reference implementations of the cited algorithms",
+        design_ref="DESIGN.md §3 C14",
+        rule=("Random parameter cells x 8 sample rates. Filter: 3 sine probes vs analytic |H| of the bilinear (pre-warped) SVF, plus mapping-free checks at the requested hertz: LP/HP gains cross at the cutoff, notch nulls there, band-pass peaks there, LP DC gain and HP Nyquist gain 0 dB +-0.05. "
+              "EQ: bell centre gain / low-shelf DC gain / high-shelf Nyquist gain == requested dB +-0.1 with the opposite band at 0 dB, 3 sine probes vs SvfLinearTrapOptimised2 response. Volume/panning/distortion: point-wise against the dB, equal-power and clip laws (4e-6). "
+              "Delay: two impulses -> echoes at exact multiples of floor(delay*sr) frames scaled by (feedback x nested volume)^k and the sqrt mix law (1e-5). Reverb: sample-by-sample against an independent f64 Freeverb network (tunings x sr/44100, spread 23, 8 combs, 4 all-passes) and tail-energy decay for feedback < 1. "
+              "Compressor: below threshold unchanged, steady-state reduction (level-threshold)(1-1/ratio) dB +-0.1, attack/release reach 1-1/e within +-5 %. A case is distinct when its (effect, mode/kind, sample rate, coarse parameter cell) is new."),
+        domain="cutoffs 40 Hz..0.45 sr, resonance 0..0.85, Q 0.3..8, gains +-24 dB, delays 1..3000 frames, feedback <= 0 dB, reverb feedback <= 0.98, compressor ratio 1..50, attack 2..100 ms, release 5..300 ms; measurement domains are narrower than C13's so that settling fits the run length",
+        assumptions=["reference models were written from the cited sources (Simper/Cytomic SVF papers, Freeverb) and from kira's documentation, not from kira's code paths; the resonance->k mapping (k = 2 - 1.9 res) is taken from the cited baseplug example",
+                     "sine gains are measured by quadrature over a whole number of periods after 12 time constants of settling"],
+        quick=[rel(35)],
+        thorough=[rel(900)],
+        level_text="Measured behaviour of the real effects on ~10^5 (quick) / 10^6 (thorough) generated settings against closed forms and independent references; exploration, the parameter space is continuous.",
+        level_note="Trusts the harness reference implementations and measurement procedure (tolerances stated in the rule).",
+    ),
     "C19": dict(
         level="exploration",
         technique="runtime monitoring: exhaustive f32 sweeps + dense boundary-biased sampling of the public conversion functions against independent f64 oracles",
